@@ -19,7 +19,7 @@ import (
 func runC17FaultFree(rc *core.RunCtx) {
 	w := setup(rc)
 	g := simrt.G()
-	rc.PostRun = func(res *simrt.Result) { crashClause(rc, res, "C17") }
+	rc.PostRun = func(res *simrt.Result) { livelockClause(rc, res, "C17") }
 	nn := g.Range(2, 3)
 	targets := []string{"rec/r0", "rec/r1"}
 	var nodes []int
@@ -28,6 +28,13 @@ func runC17FaultFree(rc *core.RunCtx) {
 			panic(err)
 		}
 		nodes = append(nodes, n)
+	}
+	if g.Bool(0.25) {
+		// everybody addresses one node by a name that differs from the address
+		// its engine was configured with (host name vs IP)
+		a := nodes[g.IntN(len(nodes))]
+		w.useAlias(a)
+		rc.Scen("node%d is addressed as %s", a, w.dest(a))
 	}
 	maxOps := 8
 	if rc.Tier == "thorough" {
@@ -51,7 +58,7 @@ func runC17FaultFree(rc *core.RunCtx) {
 		r := &reqR{key: fmt.Sprintf("req%d", i)}
 		reqs = append(reqs, r)
 		simrt.GoNode(from, "requester", func() {
-			resp := w.nodes[from].E.Request(actor.NewPID(addrOf(to), "rec/r0"), &actor.Ping{From: &actor.PID{Address: "payload", ID: r.key}}, 10*time.Second)
+			resp := w.nodes[from].E.Request(actor.NewPID(w.dest(to), "rec/r0"), &actor.Ping{From: &actor.PID{Address: "payload", ID: r.key}}, 10*time.Second)
 			r.val, r.err = resp.Result()
 			r.ok = true
 			simrt.Ev("request %s -> %v %v", r.key, r.val, r.err)
@@ -179,8 +186,10 @@ func runC17Break(rc *core.RunCtx) {
 	rc.Scen("buggify: setDeadlineErrP=%v dialRefuseP=%v", simnet.Net().SetDeadlineErrP, simnet.Net().DialRefuseP)
 	scripts := genOpsFrom(g, rc, 1, []int{2}, targets, g.Range(1, 2), maxOps, false)
 	fin := runScripts(w, scripts)
-	mode := g.IntN(3)
-	// a fault task breaks the connection, partitions, or crashes node 2 at a random moment
+	mode := g.IntN(4)
+	// a fault task breaks the connection, partitions, or crashes node 2 at a random moment,
+	// or makes node 2 end the stream (not the connection) by sending it a message of a
+	// type only the sender knows
 	simrt.GoNode(0, "fault", func() {
 		for i := simrt.IntN(40); i > 0; i-- {
 			simrt.Yield(simrt.OpUser)
@@ -198,9 +207,12 @@ func runC17Break(rc *core.RunCtx) {
 			if _, err := w.StartNode(2, targets); err != nil {
 				panic(err)
 			}
+		case 3:
+			simrt.Fault("peer-ends-stream")
+			w.nodes[1].E.Send(actor.NewPID(addrOf(2), "rec/r0"), unknownTypeMsg())
 		}
 	})
-	rc.Scen("fault mode=%s", [...]string{"break", "partition+heal", "crash+restart"}[mode])
+	rc.Scen("fault mode=%s", [...]string{"break", "partition+heal", "crash+restart", "peer-ends-stream"}[mode])
 	simrt.WaitQuiet(60 * time.Second)
 	if *fin != len(scripts) {
 		rc.Violate("send-blocked", "senders blocked: %v", simrt.BlockedTasks())
